@@ -1,0 +1,88 @@
+//go:build verif
+
+// Contracts checked by /verif (govc). Comments only; not part of any normal build.
+// The `layout` directive synthesises requires/ensures from /verif/specs/layouts (DESIGN.md section 3.4).
+
+package sgip12
+
+//@ func (p *Bind) IEncode
+//@   theory T1
+//@   layout enc
+
+//@ func (p *Bind) IDecode
+//@   theory T1
+//@   layout dec
+
+//@ func (p *BindResp) IEncode
+//@   theory T1
+//@   layout enc
+
+//@ func (p *BindResp) IDecode
+//@   theory T1
+//@   layout dec
+
+//@ func (p *Unbind) IEncode
+//@   theory T1
+//@   layout enc
+
+//@ func (p *Unbind) IDecode
+//@   theory T1
+//@   layout dec
+
+//@ func (p *UnbindResp) IEncode
+//@   theory T1
+//@   layout enc
+
+//@ func (p *UnbindResp) IDecode
+//@   theory T1
+//@   layout dec
+
+//@ func (p *Submit) IEncode
+//@   theory T1
+//@   layout enc
+
+//@ func (p *Submit) IDecode
+//@   theory T1
+//@   layout dec
+
+//@ func (p *SubmitResp) IEncode
+//@   theory T1
+//@   layout enc
+
+//@ func (p *SubmitResp) IDecode
+//@   theory T1
+//@   layout dec
+
+//@ func (p *Deliver) IEncode
+//@   theory T1
+//@   layout enc
+
+//@ func (p *Deliver) IDecode
+//@   theory T1
+//@   layout dec
+
+//@ func (p *DeliverResp) IEncode
+//@   theory T1
+//@   layout enc
+
+//@ func (p *DeliverResp) IDecode
+//@   theory T1
+//@   layout dec
+
+//@ func (p *Report) IEncode
+//@   theory T1
+//@   layout enc
+
+//@ func (p *Report) IDecode
+//@   theory T1
+//@   layout dec
+
+//@ func (p *ReportResp) IEncode
+//@   theory T1
+//@   layout enc
+
+//@ func (p *ReportResp) IDecode
+//@   theory T1
+//@   layout dec
+
+// ---- hand-written below ----
